@@ -17,9 +17,12 @@ PARTIAL = [
     "date-times are abstract in the model (an aware datetime is the text its formatting gives; formatting and parsing of date-times is C09); "
     "the harness supplies that text from its own formatter and compares instants with its own reader; UTC offsets outside -12h..+14h "
     "(refused by the library's reader) and years < 1000 are outside the domain",
-    "the writers (ElementTree html method, tostring_unclosed_elements, indent) and the readers are not modelled here: the model yields the element "
-    "tree and the header text; reading the bytes back is done by the correspondence run on every case, by the library and by an independent "
-    "tokenizer (composed_parses_back = composition with C01's wire round trip is left to the integration step and is not stated)",
+    "composed_parses_back (bytes of serialize -> parse_header -> TreeBuilder gives back header and tree, all four requests, v1/v2, pretty or "
+    "not, closed or not) is proved by composing the closed forms with the Header / Sgml / Serialize engines' theorems (Proofs/FileRoundTrip.v), "
+    "under decidable domain hypotheses: uuids over [A-Za-z0-9_-] (<= 36), every written datum non-empty and stripped, Unicode scalar values only, "
+    "and for close_elements=False no aggregate without children (excludes the tax request with no year and no id); that hypothesis set is not "
+    "derived from conditions on the individual inputs (it is stated on the composed tree), and conversion of the read tree back to model "
+    "instances (convert()) is C01's theorem over the schema engine, not restated here; the run also reads every case back with both readers",
     "a str handed to a constructor is passed through saxutils.unescape by String.convert: a caller's value containing an entity reference "
     "(&amp; &lt; &gt; &quot; &apos; &nbsp;) is changed before it is written; the theorems state the written value as [norm v] (= v when v has no '&'); "
     "recorded finding entity-reference-in-value-unescaped with the witness signon_entity_refuted",
@@ -30,13 +33,13 @@ PARTIAL = [
 ]
 MANIFEST = {
     "engine": "Compose",
-    "text": "Ten obligations about the executable model of request composition. For every configuration and EVERY list of requests (any length, order, "
+    "text": "Eleven obligations about the executable model of request composition. For every configuration and EVERY list of requests (any length, order, "
             "mix) the composed body is OFX[sign-on; BANKMSGSRQV1[closing, statement wrappers]; CREDITCARDMSGSRQV1[...]; INVSTMTMSGSRQV1[...]] with a message "
             "set present iff it has a wrapper and the wrappers of each kind in request order within the kind (closed form of the sorted/groupby/sort/"
             "groupby/dict pipeline, proved from a stable-sort-by-rank lemma), each wrapper carrying its request's ids, type, dates and flags; exactly one "
             "sign-on with the supplied identity (FI iff ORG, CLIENTUID iff configured and version >= 103); TRNUIDs pairwise distinct, one per request, given a "
             "duplicate-free uuid stream; header text carries the effective version; 2xx + close_elements=False is refused by the constructor and by "
-            "serialize, so never composed; the tax request carries ACCTNUM, RECID and the years. The model is tied to Client.py by regenerating defaults, "
+            "serialize, so never composed; the tax request carries ACCTNUM, RECID and the years; the bytes serialize writes are split by parse_header into that header and read by the tree builder into the composed tree with its data entity-escaped (composed_parses_back, integration with C05/C02). The model is tied to Client.py by regenerating defaults, "
             "class names and the shapes of the 31 aggregate classes from the live classes (schema_as_modelled is an obligation) and by evaluating it inside "
             "Coq on the same ~10^3 (thorough ~2*10^4) cases as the implementation, whose dry-run bytes are read back by the library and by an independent "
             "tokenizer; the property predicate is evaluated on those bytes from the caller's inputs alone.",
